@@ -105,17 +105,19 @@ FAST = (
 )
 SLOW = (
     "all unordered pairs of circuits of <= 1 op and a seeded sample of pairs of <= 2 ops over an 8-op alphabet on (1e,1p,1c) "
-    "and (2e,1p,0c) [quick 30 pairs, thorough 3000], the 166 fixed near-miss pairs ged_targeted() (role swap / class change / "
+    "and (2e,1p,0c) [quick 30 pairs, thorough 400], the 166 fixed near-miss pairs ged_targeted() (role swap / class change / "
     "gate change of every 'one-qubit op + two-qubit op' circuit), seeded near-miss pairs of 2-op circuits; the networkx optimisers run with "
     "graphiq's own time-outs"
 )
-make_pair_item("direct", FAST)
-make_pair_item("check_redundant_circuit", FAST)
+make_pair_item("direct", FAST + "; thorough: also all unordered pairs of the 259 circuits of <= 3 ops over ALPHA3 on (2e,0p,0c)")
+make_pair_item("check_redundant_circuit", FAST + " (quick: every second enumerated pair)")
 make_pair_item(
     "is_isomorphic",
-    FAST + "; classically controlled pairs only between registers of different type here (same-type ones: item "
-    "is_isomorphic.classical_control_roles); plus all unordered pairs of the 259 circuits of <= 3 ops over ALPHA3 on (2e,0p,0c) "
-    "that have no parallel DAG edges (those: item is_isomorphic.parallel_edges)",
+    FAST + "; plus all unordered pairs of those of the 259 circuits of <= 3 ops over ALPHA3 on (2e,0p,0c) that have no parallel "
+    "DAG edges.  Restricted by construction so that the known findings C15-iso-classical-roles / C15-iso-parallel-edges "
+    "cannot be hit: classically controlled pairs only between registers of different type, and (seeded part, ALPHA3 part) no "
+    "circuit in which two operations are adjacent on two wires; those classes are driven by the fixed items "
+    "is_isomorphic.classical_control_roles / is_isomorphic.parallel_edges",
 )
 make_pair_item("GED_approximate", SLOW.replace("quick 30 pairs", "quick 800 pairs"))
 make_pair_item("GED_full", SLOW)
@@ -180,7 +182,8 @@ def pad_ops(ops, regs):
     site=CC + "direct / ged / check_redundant_circuit / remove_redundant_circuits",
     bound="pairs (a,b) of the near-miss domain: verdict(a,b) = verdict(wrap(a),b) = verdict(a,pad(b)) and verdict(a,wrap(a)) = "
     "verdict(a,pad(a)) = equal, for direct, check_redundant_circuit, GED_approximate (+ GED_full on the small registers); "
-    "remove_redundant_circuits([a, wrap(a), pad(a)]) keeps one.  The bare is_isomorphic method compares wrappers as they stand "
+    "remove_redundant_circuits([a, wrap(a), pad(a)]) keeps one (only for a without parallel DAG edges and without same-type "
+    "classically controlled pairs - known findings C15-iso-*).  The bare is_isomorphic method compares wrappers as they stand "
     "(its de-duplication front end unwraps first) and is not asked for insensitivity",
     clause="insensitive to wrapping of single-qubit gates and to identity gates",
 )
@@ -236,7 +239,9 @@ LISTS = (
 @S.item(
     "remove_redundant_circuits.keeps_every_distinct",
     site=CC + "remove_redundant_circuits",
-    bound=LISTS + "; classically controlled pairs only between registers of different type (see is_isomorphic.classical_control_roles)",
+    bound=LISTS + "; restricted by construction (no classically controlled pair between same-type registers, no circuit with "
+    "parallel DAG edges) so that the known findings C15-iso-* cannot be hit; those classes: items *.classical_control_roles, "
+    "*.parallel_edges",
     clause="removing redundant circuits never discards a circuit inequivalent (up to register renaming) to every circuit kept",
 )
 def dedup_case(inp):
@@ -252,7 +257,8 @@ def dedup_case(inp):
     "CircuitStorage.keeps_every_distinct",
     site=CC + "CircuitStorage.add_new_circuit / is_redundant / check_redundant_circuit",
     bound=LISTS + "; modes: default check function (exact equivalence demanded), disable_circuit_comparison=True (everything "
-    "kept), custom check_function=is_isomorphic comparison (equivalence up to renaming demanded)",
+    "kept), custom check_function=is_isomorphic comparison (equivalence up to renaming demanded; lists restricted as for "
+    "remove_redundant_circuits.keeps_every_distinct)",
     clause="refusing to store a redundant circuit never discards a circuit inequivalent to every circuit kept",
 )
 def storage_case(inp):
@@ -299,7 +305,7 @@ ROLE_PAIRS = [
 @S.item(
     "is_isomorphic.classical_control_roles",
     site=CC + "circuit_is_isomorphic / _create_edge_control_target_attr",
-    bound="6 fixed pairs: H on one register followed by a classically controlled pair (ClassicalCNOT, ClassicalCZ, "
+    bound="fixed sample, seed-independent (touches known finding C15-iso-classical-roles): 6 fixed pairs: H on one register followed by a classically controlled pair (ClassicalCNOT, ClassicalCZ, "
     "MeasurementCNOTandReset) between two registers of the same type, control/target exchanged (4) or kept (2)",
     exhaustive=True,
     clause="reported equal => same compiled state up to renaming (control/target roles of classically controlled operations)",
@@ -311,7 +317,8 @@ def roles_case(inp):
 @S.item(
     "remove_redundant_circuits.classical_control_roles",
     site=CC + "remove_redundant_circuits",
-    bound="the 4 role-exchanged pairs of is_isomorphic.classical_control_roles as two-element lists",
+    bound="fixed sample, seed-independent (touches known finding C15-iso-classical-roles): the 4 role-exchanged pairs of "
+    "is_isomorphic.classical_control_roles as two-element lists",
     exhaustive=True,
     clause="never discards a circuit inequivalent to every circuit kept (classically controlled operations)",
 )
@@ -368,7 +375,7 @@ PARALLEL_LISTS = [
 @S.item(
     "is_isomorphic.parallel_edges",
     site=CC + "circuit_is_isomorphic (edge_match)",
-    bound="4 fixed pairs of circuits in which two consecutive two-qubit gates act on the same register pair (parallel DAG "
+    bound="fixed sample, seed-independent (touches known finding C15-iso-parallel-edges): 4 fixed pairs of circuits in which two consecutive two-qubit gates act on the same register pair (parallel DAG "
     "edges); second gate with exchanged roles (3, inequivalent) / consistently renamed (1, equivalent)",
     exhaustive=True,
     clause="reported equal => same compiled state up to renaming (parallel edges)",
@@ -380,7 +387,7 @@ def parallel_case(inp):
 @S.item(
     "remove_redundant_circuits.parallel_edges",
     site=CC + "remove_redundant_circuits",
-    bound="4 fixed two-element lists with parallel DAG edges: 2 with inequivalent members (both must stay), 2 whose members differ "
+    bound="fixed sample, seed-independent (touches known finding C15-iso-parallel-edges): 4 fixed two-element lists with parallel DAG edges: 2 with inequivalent members (both must stay), 2 whose members differ "
     "by an identity gate only (one must go)",
     exhaustive=True,
     clause="never discards a distinct circuit; insensitive to identity gates (parallel edges)",
@@ -589,7 +596,7 @@ def run(tier, seed):
         small_pairs_1 += all_pairs(c1)
         small_pairs_2 += all_pairs(c2)
     idx = rng.permutation(len(small_pairs_2))
-    n_slow = 3000 if thorough else 30
+    n_slow = 400 if thorough else 30
     n_apx = len(idx) if thorough else 800
     small_near = []
     r2 = np.random.default_rng([seed, 152])
